@@ -8,8 +8,9 @@ class Reader:
     pos: int    # Line index of current line.
     escaped: int    # Line index of the last line whose escaping backslash was dropped.
     expansions: List[int]   # End line indexes of the nested line macro expansions enclosing the current line.
+    depth: int  # Number of line macro expansions enclosing this reader (the content of a container block has its own reader).
 
-    def __init__(self, text: str):
+    def __init__(self, text: str, depth: int = 0):
         # Used internally by spans package.
         text = text.replace('\u0000', ' ')
         # Used internally by spans package.
@@ -23,6 +24,7 @@ class Reader:
         self.pos = 0
         self.escaped = -1
         self.expansions = []
+        self.depth = depth
 
     @property
     def cursor(self) -> str:
@@ -42,15 +44,19 @@ class Reader:
     def insertExpansion(self, lines: List[str], maxDepth: int) -> bool:
         '''Insert the lines of a macro expansion just ahead of the cursor.
            Return False (inserting nothing) if the cursor is already inside maxDepth nested expansions.'''
-        while self.expansions and self.pos >= self.expansions[-1]:
-            self.expansions.pop()
-        if len(self.expansions) >= maxDepth:
+        if self.nesting() >= maxDepth:
             return False
         pos = self.pos + 1
         self.lines[pos:pos] = lines
         self.expansions = [end + len(lines) for end in self.expansions]
         self.expansions.append(pos + len(lines))
         return True
+
+    def nesting(self) -> int:
+        '''Number of nested line macro expansions enclosing the current line, those around an enclosing container included.'''
+        while self.expansions and self.pos >= self.expansions[-1]:
+            self.expansions.pop()
+        return self.depth + len(self.expansions)
 
     def eof(self) -> bool:
         '''Return true if the cursor has advanced over all input self.lines.'''
